@@ -458,7 +458,11 @@ fn witness_roundtrip(w: &mut World, wit: usize, s: &mut Src, budget: usize) -> R
 /// single malformed request lines (complete, CRLF-terminated)
 const GARBAGE_LINES: [&[u8]; 4] = [b"BADMETHOD / HTTP/1.1\r\n", b"GET /x HTTP/9.9\r\n", b"GET\r\n", b"\0\xff\xfe garbage\r\n"];
 
-const GARBAGE: [&[u8]; 8] = [
+const GARBAGE: [&[u8]; 12] = [
+    b"PUT / HTTP/1.1\r\nContent-Length: 18446744073709551616\r\n\r\n",
+    b"PUT / HTTP/1.1\r\nContent-Length: 99999999999999999999999999999999999999999\r\n\r\n",
+    b"PUT / HTTP/1.1\r\nContent-Length: 18446744073709551615\r\n\r\n",
+    b"PUT / HTTP/1.1\r\nContent-Length: 4294967296\r\n\r\n",
     b"\0\xff\xfe garbage\r\n",
     b"BADMETHOD / HTTP/1.1\r\n\r\n",
     b"GET /x HTTP/9.9\r\n\r\n",
@@ -1085,7 +1089,7 @@ fn c10_hist(input: &Input, obs: &mut Obs) -> Result<(), Fail> {
                 target_high = true;
                 cycles += 1;
             }
-            let wts: [u32; 13] = if target_high { [14, 2, 1, 4, 2, 3, 2, 3, 1, 2, 1, 2, 1] } else { [3, 10, 3, 3, 1, 4, 2, 2, 1, 2, 2, 2, 2] };
+            let wts: [u32; 14] = if target_high { [14, 2, 1, 4, 2, 3, 2, 3, 1, 2, 1, 2, 1, 1] } else { [3, 10, 3, 3, 1, 4, 2, 2, 1, 2, 2, 2, 2, 2] };
             let op = s.weighted(&wts);
             // with a read-shut client around, the number of held connections is not known exactly
             let mut burst_close = accepted.iter().any(|c| maybe(&w, *c))
@@ -1154,6 +1158,28 @@ fn c10_hist(input: &Input, obs: &mut Obs) -> Result<(), Fail> {
                     if small {
                         w.flush();
                         obs.label("flush_outgoing_writes");
+                    }
+                }
+                13 => {
+                    // the head of an Expect request is read by one poll (the interim response is
+                    // queued, not yet written) and the client hangs up before the next poll
+                    let live: Vec<usize> = accepted.iter().copied().filter(|c| alive(&w, *c) && w.clients[*c].staged.is_empty() && w.clients[*c].unsent.is_empty() && !w.clients[*c].dirty && !w.clients[*c].lazy && !w.outstanding.iter().any(|o| o.c == *c)).collect();
+                    if !live.is_empty() {
+                        let c = live[s.below(live.len())];
+                        let n = s.range(1, 40);
+                        let spec = ReqSpec { method: 1 + s.below(2) as u8, version: s.below(2) as u8, body: n, expect: true, extra_headers: s.below(2), body_kind: 0 };
+                        let bytes = w.compose(c, &spec);
+                        let head = bytes.len() - n;
+                        w.clients[c].dirty = true;
+                        w.send_raw(c, &bytes[..head]);
+                        let polls = s.range(1, 2);
+                        for _ in 0..polls {
+                            if w.epoll_ready() {
+                                w.poll();
+                            }
+                        }
+                        if s.chance(128) { w.close_client(c) } else { w.shutdown_client(c, libc::SHUT_RDWR) }
+                        obs.label("hangup_between_expect_head_and_interim_response");
                     }
                 }
                 12 => {
@@ -2076,29 +2102,33 @@ fn c07_hist(input: &Input, obs: &mut Obs) -> Result<(), Fail> {
                 None
             };
             w.settle(100, false);
-            let k = s.range(2, 4);
+            let k = if s.chance(90) { s.range(34, 50) } else { s.range(2, 4) };
             for _ in 0..k {
                 w.send_request(c, &spec, &[]);
             }
             if let Some(o) = other {
                 w.send_request(o, &spec, &[]);
             }
-            w.settle(200, false);
+            w.settle(300, false);
             w.clients[c].lazy = true;
             if let Some(kk) = w.outstanding.iter().position(|o| o.c == c) {
                 w.respond(kk, 200, [300_000usize, 600_000, 1_200_000][s.below(3)]);
                 for _ in 0..s.below(3) {
                     w.poll();
                 }
-                w.flush();
-                obs.label("flush_to_a_client_that_does_not_read");
+                if s.chance(150) {
+                    w.flush();
+                    obs.label("flush_to_a_client_that_does_not_read");
+                } else {
+                    obs.label("many_answers_queued_behind_a_partly_written_response");
+                }
                 // further answers for the same connection, and for the bystander
                 while let Some(kk) = w.outstanding.iter().position(|o| o.c == c) {
                     w.respond(kk, 200, s.range(0, 100));
                     if s.chance(100) {
                         w.poll();
                     }
-                    if s.chance(60) {
+                    if k <= 4 && s.chance(60) {
                         w.flush();
                     }
                 }
@@ -2962,6 +2992,18 @@ fn c11_server(input: &Input, obs: &mut Obs) -> Result<(), Fail> {
                     obs.label("error_with_partial_line_buffered");
                 }
             }
+            // now and then the application flushes right after the poll that queued the 400 (an older
+            // request of this client may still be unanswered)
+            if s.chance(70) && !w.sndbuf_shrunk {
+                if w.epoll_ready() {
+                    w.poll();
+                }
+                w.flush();
+                obs.label("flush_after_the_400_was_queued");
+                if !w.outstanding.is_empty() {
+                    obs.label("flush_with_an_older_request_in_flight");
+                }
+            }
             w.settle(200, true);
             let a = audit_client(&w, c)?;
             if a.n400 <= n400_before {
@@ -3038,10 +3080,27 @@ fn c13_server(input: &Input, obs: &mut Obs) -> Result<(), Fail> {
     let r = (|| -> Result<(), (String, String)> {
         let c = 0;
         // the limit in force when the client connects decides which requests qualify
-        let lim = [crate::DEFAULT_LIMIT, crate::DEFAULT_LIMIT, 5, 100, 1024][s.below(5)];
+        let lim = [crate::DEFAULT_LIMIT, crate::DEFAULT_LIMIT, 5, 100, 1024, 0, 1][s.weighted(&[4, 4, 3, 3, 3, 2, 1])];
         if lim != crate::DEFAULT_LIMIT {
             w.set_limit(lim);
             obs.label("non_default_limit");
+        }
+        // now and then an earlier client on the same descriptor number left while the server was
+        // about to write its interim response
+        if s.chance(60) && lim >= 8 {
+            let e = 1usize;
+            w.connect(e);
+            w.settle(100, true);
+            let spec = ReqSpec { method: 1, version: 1, body: 5, expect: true, extra_headers: 0, body_kind: 0 };
+            let bytes = w.compose(e, &spec);
+            w.clients[e].dirty = true;
+            w.send_raw(e, &bytes[..bytes.len() - 5]);
+            if w.epoll_ready() {
+                w.poll();
+            }
+            w.close_client(e);
+            w.settle(100, true);
+            obs.label("earlier_client_left_before_its_interim_response");
         }
         w.connect(c);
         w.settle(100, true);
